@@ -53,7 +53,7 @@ fn target_str(t: &Target) -> String {
 }
 fn ip_tok(h: &str) -> String { format!("ip={}:{}", hex(h.as_bytes()), h.parse::<IpAddr>().map_or("-".to_string(), |ip| hex(ip.to_string().as_bytes()))) }
 
-const IPS: &[&str] = &["10.0.0.1", "127.0.0.1", "0.0.0.0", "255.255.255.255", "::1", "::", "2001:db8::1", "2001:db8:0:0:1:0:0:1", "::ffff:10.1.2.3", "fe80::1", "2001:0db8:0000:0000:0000:0000:0000:0001", "FE80::A"];
+const IPS: &[&str] = &["10.0.0.1", "127.0.0.1", "0.0.0.0", "255.255.255.255", "::1", "::", "2001:db8::1", "2001:db8:0:0:1:0:0:1", "::ffff:10.1.2.3", "fe80::1", "2001:0db8:0000:0000:0000:0000:0000:0001", "FE80::A", "0064:ff9b:0000:0000:0000:0000:192.168.100.200", "0000:0000:0000:0000:0000:ffff:10.100.200.30", "2001:0db8:0000:0000:0000:0000:1.2.3.4"];
 const BAD_HOSTS: &[&str] = &["", "localhost", "10.0.0", "10.0.0.256", "[::1]", "[10.0.0.7]", "10.0.0.7]", "[[2001:db8::7", "[2001:db8::7]", "::1%eth0", "1.2.3.4:80", "mc.example.org", " 10.0.0.1", "2001:db8::g"];
 
 fn gen_md(rng: &mut Rng, dups: bool) -> Vec<(String, String)> {
